@@ -38,7 +38,7 @@ CLAIMED = {
    ref="DESIGN.md section 6 (C09)"),
  "C10": dict(
    text="Proof of memory safety (every index, slice, nil dereference, division), termination (measure at every cut point, non-strict edges acyclic) and `err == nil ==> 0 <= p <= len(data)` for every function under contract, with handlers returning arbitrary 64-bit offsets and errors and arbitrary scratch-stack contents; bit-vector arithmetic, so overflow is modelled (this check found the handler-offset overflow that was repaired in /repo).",
-   note="Covers the functions listed in evidence.functions_under_contract; functions not under contract (ValueReader methods, StdLibCompatible*, internal/fp bodies) are listed in DESIGN.md as unverified surroundings. Assumes non-nil Decode targets, A-maxalloc, non-overlapping slice parameters.",
+   note="Covers the functions listed in evidence.functions_under_contract (now including internal/fp's ParseJSONFloatPrefix, readFloat, set and the two kernels; the decimal shifting code enters with an assumed safety contract justified by C04's equivalence with strconv). Functions not under contract (ValueReader methods, ReadValue, StdLibCompatible*) are NOT proved; for them a BOUNDED stand-in (labelled bounded, not counted as discharged) runs them for panics over the replay corpus, its truncations, mutations and an enumeration. Assumes non-nil Decode targets, A-maxalloc, non-overlapping slice parameters.",
    tech="contract-based deductive verification: safety + termination VCs per cut point over go/ssa, Houdini-inferred invariants re-verified, z3/cvc5",
    ref="DESIGN.md section 6 (C10)"),
  "C13": dict(
